@@ -27,7 +27,11 @@ def main():
             if a.returncode != 0:
                 res = dict(result="patch-does-not-apply", detail=a.stderr[-300:])
             else:
-                c = sh(f"./check {prop} --tier {tier}", cwd=VERIF, timeout=3600)
+                try:
+                    c = sh(f"./check {prop} --tier {tier}", cwd=VERIF, timeout=2700)
+                except subprocess.TimeoutExpired:
+                    sh(f"pkill -9 -f 'check {prop} --tier'")
+                    c = subprocess.CompletedProcess("", 2, stdout="TIMEOUT", stderr="")
                 m = re.search(r"^VIOLATION property=(\S+) replay=(\S+)( no-failing-input-found)?", c.stdout, flags=re.M)
                 if m:
                     kind = "unknown"
